@@ -128,3 +128,42 @@ type rlocker RWMutex
 
 func (r *rlocker) Lock()   { (*RWMutex)(r).RLock() }
 func (r *rlocker) Unlock() { (*RWMutex)(r).RUnlock() }
+
+// Cond replaces sync.Cond. As in the real type a waiter joins the notify list before it releases the lock, so a
+// Signal issued between the unlock and the park is not lost.
+type Cond struct {
+	L    sync.Locker
+	real *sync.Cond
+}
+
+func NewCond(l sync.Locker) *Cond { return &Cond{L: l, real: sync.NewCond(l)} }
+
+func (c *Cond) Wait() {
+	s := cur.Load()
+	if s == nil {
+		c.real.Wait()
+		return
+	}
+	t := s.call(req{kind: kCondAdd, obj: unsafe.Pointer(c)}).v
+	c.L.Unlock()
+	s.call(req{kind: kCondWait, obj: unsafe.Pointer(c), n: t})
+	c.L.Lock()
+}
+
+func (c *Cond) Signal() {
+	s := cur.Load()
+	if s == nil {
+		c.real.Signal()
+		return
+	}
+	s.call(req{kind: kCondSignal, obj: unsafe.Pointer(c), n: 0})
+}
+
+func (c *Cond) Broadcast() {
+	s := cur.Load()
+	if s == nil {
+		c.real.Broadcast()
+		return
+	}
+	s.call(req{kind: kCondSignal, obj: unsafe.Pointer(c), n: 1})
+}
